@@ -276,6 +276,20 @@ async fn run_one(sc: &Value) -> Value {
                 out["end"] = json!("nologin");
             }
         }
+        "C03len" => {
+            // the operator's maximum frame length is about what the CLIENT may send: the server's own packets (a signed cookie with a large
+            // profile, a long configured message) are not subject to it -- the player still gets the Transfer / the Disconnect
+            let mut t = Tcp::connect(addr, None).await.unwrap();
+            let o = login_to(&mut t, 2, "h", 25565, "Claimed", 5, None, "success", Duration::from_millis(2500)).await;
+            if o.login_success.is_some() {
+                let c = configuration_loc(&mut t, Some("en_US"), true, Duration::from_millis(2500)).await;
+                out["end"] = c["end"].clone();
+                out["cookieBytes"] = json!(c["cookies"].as_array().map(|a| a.iter().map(|k| k["payload"].as_str().unwrap_or("").len() / 2).max().unwrap_or(0)).unwrap_or(0));
+                out["reasonLen"] = json!(c["reason"].as_str().map(|s| s.len()).unwrap_or(0));
+            } else {
+                out["end"] = json!("nologin");
+            }
+        }
         "C03app" => {
             // the application's own wiring of the localization configuration: nobody to be sent to, the client reports `locale`
             let mut t = Tcp::connect(addr, None).await.unwrap();
